@@ -175,3 +175,149 @@ package group
 //@   -- C10: on success the client is the member registered under its id; ids are unique
 //@   ensures member: isnil(result1) ==> has(result0.clients, icall("group.Client.Id", c)) && same(result0.clients[icall("group.Client.Id", c)], c)
 //@        && icall("group.Client.Id", c) != ""
+//@
+//@ -- the table of groups is only touched with groups.mu held
+//@ guarded var groups.mu: groups
+//@
+//@ func (*Group).Data
+//@   props C13
+//@   requires nonnil: g != nil
+//@   requires unlocked: !held(g.mu)
+//@   modifies held(g.mu)
+//@   ensures unlocked: !held(g.mu)
+//@
+//@ func (*Group).UpdateData
+//@   props C13
+//@   requires nonnil: g != nil
+//@   requires unlocked: !held(g.mu)
+//@   modifies g.data, g.data[*], held(g.mu)
+//@   invariant loop 1 locked: held(g.mu) && !isnil(g.data) && (same(g.data, old(g.data)) || fresh(g.data))
+//@   invariant loop 2 range: -1 <= rangeindex && rangeindex < len(clients)
+//@   ensures unlocked: !held(g.mu)
+//@
+//@ func maxHistoryAge
+//@   props C13 C15
+//@   requires nonnil: desc != nil
+//@   modifies nothing
+//@
+//@ func (*Group).mayExpire
+//@   props C13
+//@   requires nonnil: g != nil && g.description != nil
+//@   requires unlocked: !held(g.mu)
+//@   modifies held(g.mu)
+//@   ensures unlocked: !held(g.mu)
+//@
+//@ func Get
+//@   props C13
+//@   requires unlocked: !held(groups.mu)
+//@   modifies held(groups.mu)
+//@   ensures unlocked: !held(groups.mu)
+//@
+//@ func deleteUnlocked
+//@   props C13
+//@   requires nonnil: g != nil
+//@   -- "called with both groups.mu and g.mu taken"
+//@   requires locked: held(groups.mu) && held(g.mu)
+//@   modifies groups.groups[*]
+//@
+//@ func Delete
+//@   props C13
+//@   requires unlocked: !held(groups.mu)
+//@   -- lock order groups.mu -> Group.mu: no group mutex is held by the caller
+//@   requires group-unlocked: forall name string :: has(groups.groups, name) ==> groups.groups[name] == nil || !held(groups.groups[name].mu)
+//@   modifies groups.groups[*], held(groups.mu), held(groups.groups[name].mu)
+//@   ensures unlocked: !held(groups.mu)
+//@
+//@ func Range
+//@   props C13
+//@   requires unlocked: !held(groups.mu)
+//@   -- assumed of the callbacks passed to Range in this package: they do not touch the table or its mutex
+//@   dyncall modifies nothing
+//@   modifies held(groups.mu)
+//@   invariant loop 1 locked: held(groups.mu)
+//@   ensures unlocked: !held(groups.mu)
+//@
+//@ func (*Group).Range
+//@   props C13
+//@   requires nonnil: g != nil
+//@   requires unlocked: !held(g.mu)
+//@   -- assumed of the callbacks: they do not touch the group's guarded state or its mutex (violated by Kick of WHIP and disk
+//@   -- clients from kickall, see DESIGN.md section 8, h')
+//@   dyncall modifies nothing
+//@   modifies held(g.mu)
+//@   invariant loop 1 locked: held(g.mu)
+//@   ensures unlocked: !held(g.mu)
+//@
+//@ func (*Group).UserExists
+//@   props C13
+//@   requires nonnil: g != nil && g.description != nil
+//@   requires unlocked: !held(g.mu)
+//@   modifies held(g.mu)
+//@   ensures unlocked: !held(g.mu)
+//@
+//@ func (*Description).userExists
+//@   props C13 C08
+//@   requires nonnil: desc != nil
+//@   modifies nothing
+//@   ensures spec: result == has(desc.Users, username)
+//@
+//@ -- ------------------------------------------------------------------ chat history (C15)
+//@ func (*Group).AddToChatHistory
+//@   safe
+//@   props C15 C13 C12
+//@   requires nonnil: g != nil
+//@   requires unlocked: !held(g.mu)
+//@   requires bounded: histwf(g)
+//@   modifies g.history, full(g.history), held(g.mu)
+//@   ensures unlocked: !held(g.mu)
+//@   -- C15: the history never exceeds 50 entries
+//@   ensures bounded: histwf(g)
+//@   ensures length: len(g.history) == (len(old(g.history)) >= maxChatHistory ? len(old(g.history)) : len(old(g.history)) + 1)
+//@   -- the new entry is last and carries exactly what was given
+//@   ensures appended: g.history[len(g.history) - 1].Id == id && g.history[len(g.history) - 1].Source == source && g.history[len(g.history) - 1].Kind == kind
+//@        && same(g.history[len(g.history) - 1].User, user) && same(g.history[len(g.history) - 1].Value, value)
+//@   -- C15: order is preserved; when full, exactly the oldest entry is dropped
+//@   ensures order: forall k int :: 0 <= k && k < len(g.history) - 1 ==>
+//@        g.history[k].Id == old(g.history[k + (len(g.history) >= maxChatHistory ? 1 : 0)].Id)
+//@        && g.history[k].Source == old(g.history[k + (len(g.history) >= maxChatHistory ? 1 : 0)].Source)
+//@        && g.history[k].Kind == old(g.history[k + (len(g.history) >= maxChatHistory ? 1 : 0)].Kind)
+//@
+//@ func discardObsoleteHistory
+//@   safe
+//@   props C15 C12
+//@   modifies full(h)
+//@   invariant loop 1 range: 0 <= i && i <= len(h)
+//@   -- what is returned is a suffix of the history, moved to the front (only a prefix of the oldest entries is discarded)
+//@   ensures shorter: len(result) <= len(h) && ref(result) == ref(h)
+//@   ensures order: forall k int :: 0 <= k && k < len(result) ==> result[k].Id == old(h[k + (len(h) - len(result))].Id)
+//@        && result[k].Source == old(h[k + (len(h) - len(result))].Source) && result[k].Kind == old(h[k + (len(h) - len(result))].Kind)
+//@
+//@ func (*Group).GetChatHistory
+//@   safe
+//@   props C15 C13 C12
+//@   requires nonnil: g != nil && g.description != nil
+//@   requires unlocked: !held(g.mu)
+//@   requires bounded: histwf(g)
+//@   modifies g.history, full(g.history), held(g.mu)
+//@   ensures unlocked: !held(g.mu)
+//@   ensures bounded: histwf(g) && len(g.history) <= len(old(g.history))
+//@   -- C15: the caller gets a private copy, in order
+//@   ensures copy: fresh(result) && len(result) == len(g.history)
+//@   ensures same-order: forall k int :: 0 <= k && k < len(result) ==> result[k].Id == g.history[k].Id && result[k].Source == g.history[k].Source
+//@        && result[k].Kind == g.history[k].Kind
+//@
+//@ extern slices.DeleteFunc[[]group.ChatHistoryEntry group.ChatHistoryEntry]
+//@   why documented: removes the elements for which del returns true, keeps the others in order, clears the tail; returns s[:n]
+//@   modifies full(s)
+//@   ensures shorter: len(result) <= len(s) && (ref(result) == ref(s) || isnil(result))
+//@
+//@ func (*Group).ClearChatHistory
+//@   props C15 C13
+//@   requires nonnil: g != nil
+//@   requires unlocked: !held(g.mu)
+//@   requires bounded: histwf(g)
+//@   modifies g.history, full(g.history), held(g.mu)
+//@   ensures unlocked: !held(g.mu)
+//@   ensures bounded: histwf(g)
+//@   -- C15: operators can remove everything
+//@   ensures clear-all: id == "" && userId == "" ==> len(g.history) == 0
